@@ -43,6 +43,12 @@ def run(cx):
     for msgs in ([1000] if cx.quick() else [2500, 10000]):
         topos.append({"ns": 4, "nr": 4, "msgs": msgs // 4, "cap": 2, "spawn": "spawn", "recv": "iterbreak"})
         topos.append({"ns": 1, "nr": 1, "msgs": msgs, "cap": 0, "spawn": "method", "recv": "loop"})
+    # a burst of tiny racy ones: more receivers than values in the buffer, direct receives, the close right behind
+    # the last value - receivers race for each value and for the close
+    # (many rounds inside one evaluation, each round a history of its own)
+    for k_ in range(int(os.environ.get("C10_BURST", "0")) or (24 if cx.quick() else 240)):
+        topos.append({"ns": 1, "nr": 3 + k_ % 3, "msgs": 1 + k_ % 3, "cap": 1 + k_ % 4, "spawn": "spawn",
+                      "recv": "method" if k_ % 4 == 3 else "loop", "rounds": 60})
     traces = []
     by_id = {}
     nmsg = 0
@@ -76,6 +82,13 @@ def run(cx):
                 continue
             if res.get("k") != "ok":
                 cx.notes.append("topology %s: driver result %s" % (r_["id"], str(res)[:150]))
+                continue
+            if "rounds" in r_:
+                for k_, evs in enumerate(res.get("rounds") or []):
+                    rid = 10000000 + r_["id"] * 1000 + k_
+                    by_id[rid] = r_
+                    traces.append({"id": rid, "ns": 1, "nr": r_["nr"], "msgs": r_["msgs"], "events": evs})
+                    nmsg += r_["msgs"]
                 continue
             traces.append({"id": r_["id"], "ns": r_["ns"], "nr": r_["nr"], "msgs": r_["msgs"], "events": res["events"]})
             nmsg += r_["ns"] * r_["msgs"]
